@@ -62,6 +62,15 @@ func (b *backend) SaveDevicesBillingStat(srv grpc.ClientStreamingServer[backendp
 		if kind == "reject-after-1" && n == 1 {
 			return status.Error(codes.ResourceExhausted, "scripted: rejected after first record")
 		}
+		if kind == "ok-early-1" && n == 1 {
+			// A backend that answers OK before it has read the whole stream.
+			// Used only by the earlyOK observation, never by the judged cases.
+			b.mu.Lock()
+			b.delivered[d.DeviceId] += d.Queries
+			b.streams = append(b.streams, map[string]any{"kind": kind, "records": 1})
+			b.mu.Unlock()
+			return srv.SendAndClose(&emptypb.Empty{})
+		}
 	}
 	b.mu.Lock()
 	defer b.mu.Unlock()
@@ -198,5 +207,65 @@ func realUploader(r *vkit.Run) {
 		if ci%37 == 3 {
 			r.Sample(map[string]any{"real_uploader_case": ci, "backend_script": seq, "trace": trace})
 		}
+	}
+}
+
+// earlyOK is an OBSERVATION, not a judged case: a backend that finishes a
+// stream with status OK after reading only the first record.  An OK status is
+// an acceptance, so this behaviour is outside the fault model of the property
+// (failed and retried uploads): whether the client notices depends only on
+// whether its remaining Sends were already buffered by the transport.  With a
+// small batch the unchanged code gets OK from CloseAndRecv, drops the batch and
+// the unread records are gone; with a batch larger than the transport window a
+// Send fails with io.EOF, the whole batch is kept and the first record is
+// delivered twice.  Both outcomes are counted; neither is a verdict.
+func earlyOK(r *vkit.Run) {
+	l, err := net.Listen("tcp", "127.0.0.1:0")
+	if err != nil {
+		return
+	}
+	be := &backend{}
+	gs := grpc.NewServer(grpc.Creds(insecure.NewCredentials()))
+	backendpb.RegisterDNSServiceServer(gs, be)
+	go func() { _ = gs.Serve(l) }()
+	defer gs.Stop()
+	up, err := backendpb.NewBillStat(&backendpb.BillStatConfig{
+		Logger: newLogger(), ErrColl: errColl{}, GRPCMetrics: backendpb.EmptyGRPCMetrics{},
+		Endpoint: &url.URL{Scheme: "grpc", Host: l.Addr().String()},
+	})
+	if err != nil {
+		return
+	}
+	for _, ndev := range []int{5, 20000} {
+		be.mu.Lock()
+		be.script, be.streamNum = []string{"ok-early-1"}, 0
+		be.delivered, be.lastMeta, be.streams = map[string]uint32{}, map[string]meta{}, nil
+		be.mu.Unlock()
+		rec := billstat.NewRuntimeRecorder(&billstat.RuntimeRecorderConfig{
+			Logger: newLogger(), ErrColl: errColl{}, Uploader: up, Metrics: billstat.EmptyMetrics{},
+		})
+		for d := 0; d < ndev; d++ {
+			record(rec, d, 1)
+		}
+		ctx, cancel := context.WithTimeout(context.Background(), 60*time.Second)
+		err1 := rec.Refresh(ctx)
+		err2 := rec.Refresh(ctx) // healthy backend: whatever is held arrives now
+		cancel()
+		be.mu.Lock()
+		lost, dup := 0, 0
+		for d := 0; d < ndev; d++ {
+			switch got := be.delivered[string(devID(d))]; {
+			case got == 0:
+				lost++
+			case got > 1:
+				dup++
+			}
+		}
+		be.mu.Unlock()
+		r.Bucket(fmt.Sprintf("observed_early_ok_backend:batch=%d:first_refresh_error=%v:devices_never_read", ndev, err1 != nil), int64(lost))
+		r.Bucket(fmt.Sprintf("observed_early_ok_backend:batch=%d:first_refresh_error=%v:devices_read_twice", ndev, err1 != nil), int64(dup))
+		r.Sample(map[string]any{"observation": "backend answers OK after the first record (outside the fault model, not judged)",
+			"batch_devices": ndev, "first_refresh_error": fmt.Sprint(err1), "second_refresh_error": fmt.Sprint(err2),
+			"devices_never_read_by_backend": lost, "devices_read_twice": dup})
 	}
 }
